@@ -68,7 +68,10 @@ func checkC17(e *env) {
 	for i, c := range cases {
 		ops[i] = fmt.Sprintf("tz %d %d", c.x, c.y)
 	}
-	models := e.drv.AskAll(ops)
+	var models []string
+	if e.drv != nil {
+		models = e.drv.AskAll(ops)
+	}
 	keys := make(map[uint64]pair, len(cases))
 	for i, c := range cases {
 		z, ok := morton.ToZ(uint(c.x), uint(c.y))
@@ -85,7 +88,7 @@ func checkC17(e *env) {
 		} else {
 			r.Dist["tz:encodable"]++
 		}
-		if impl != models[i] {
+		if models != nil && impl != models[i] {
 			r.diff(Diff{Stream: "tz", Op: ops[i], Impl: impl, Model: models[i]})
 		}
 		// the property itself, on the implementation's answers
@@ -127,12 +130,15 @@ func checkC17(e *env) {
 	for _, p := range parents {
 		gops = append(gops, fmt.Sprintf("gqz %d", interleaveSpec(p.x, p.y)))
 	}
-	gmodels := e.drv.AskAll(gops)
+	var gmodels []string
+	if e.drv != nil {
+		gmodels = e.drv.AskAll(gops)
+	}
 	for i, p := range parents {
 		zs := pointindex.XGetQuadrantZs(uint(interleaveSpec(p.x, p.y)))
 		impl := fmt.Sprintf("%d %d %d %d", zs[0], zs[1], zs[2], zs[3])
 		r.count("gqz", gops[i], bits.OnesCount64(p.x)+bits.OnesCount64(p.y) >= 2)
-		if impl != gmodels[i] {
+		if gmodels != nil && impl != gmodels[i] {
 			r.diff(Diff{Stream: "gqz", Op: gops[i], Impl: impl, Model: gmodels[i]})
 		}
 		for q := 0; q < 4; q++ {
